@@ -29,7 +29,7 @@ CHECKS = {
  "C04": dict(engine="ivh", category="exploration", design="DESIGN.md §2 C04",
    technique="bounded exhaustive enumeration of operand pairs over a boundary lattice on the real kernels, CPython as reference",
    text="Every pair of a boundary lattice of i64 / f64 operands (all sign, zero-remainder, MIN/-1/MAX, 2^31/2^32/2^53/2^62 neighbourhoods; thorough adds the dense square [-1024,1024]^2) is evaluated on every entry point of both kernel copies (semantic core, runtime library; generic and suffixed) and compared with CPython's //, %, / and with the defining invariants; every zero divisor must raise exactly the documented ZeroDivisionError and no other pair may fail. This is a complete enumeration of a finite operand space, not a proof for all 2^128 pairs: the kernels are branch-on-sign code, so the lattice is chosen to contain every sign/zero/boundary class.",
-   note="Trusts CPython as the reference for Python semantics. Sign of a zero float remainder is not asserted. Operands outside the lattice are not covered."),
+   note="Trusts CPython as the reference for Python semantics. Operands outside the lattice are not covered."),
  "C05": dict(engine="ivh", category="exploration", design="DESIGN.md §2 C05",
    technique="bounded exhaustive enumeration of (sequence, start, end, step) and range triples on the real kernels, CPython slicing/range as reference",
    text="All strings of <=3 (thorough <=4) scalars over {a, é, 𝄞} and lists of <=4 (5) elements x every index and every (start,end,step) triple from a lattice containing absent, [-6,6] and the i64 extremes, plus every range(a,b,c) over the same lattice observed to a 20-element horizon under a watchdog, are evaluated on both copies of the real helpers and compared with CPython's own slicing, indexing and range, including the documented error texts.",
